@@ -59,11 +59,31 @@ def lowercase_types(tops):
             rec(t)
 
 
+STATE_ATTRS = ('checked', 'disabled', 'type', 'name', 'required', 'readonly', 'placeholder', 'indeterminate', 'selected', 'href', 'dir',
+               'contenteditable', 'min', 'max', 'value')
+
+
+def upcase_names(rng, tops):
+    """XHTML only: attribute names are case-sensitive there, so CHECKED="" is *not* the checked attribute."""
+    def rec(e):
+        for a in STATE_ATTRS:
+            if a in e.attrs and rng.random() < .25:
+                e.attrs[rng.choice([a.upper(), a.capitalize()])] = e.attrs.pop(a)
+        for k in e.kids:
+            if isinstance(k, E):
+                rec(k)
+    for t in tops:
+        if isinstance(t, E):
+            rec(t)
+
+
 def build(rng):
     tops = htmlgen.gen_form_doc(rng, wrapper=True, max_nodes=28)
     how = rng.choice(['api', 'api', 'html.parser', 'html.parser', 'lxml', 'html5lib', 'xhtml'])
     if how == 'xhtml':
         lowercase_types(tops)
+        if rng.random() < .4:
+            upcase_names(rng, tops)
         html = [t for t in tops if isinstance(t, E)][0]
         html.nsdecl = {'': NS_XHTML}
 
@@ -107,6 +127,7 @@ def check_doc(sv, d, kind, open_keys, stats, via='module'):
     """Returns (violations, known-finding hits) as lists of dicts."""
     import bs4
     stats['via:' + via] = stats.get('via:' + via, 0) + 1
+    refhtml.set_xml(kind == 'xhtml')
     els = [e for e in d.descendants if isinstance(e, bs4.Tag)]
     ID = {id(e): e for e in els}
     html_els = {i for i, e in ID.items() if kind != 'xhtml' or e.namespace == NS_XHTML}
